@@ -59,7 +59,7 @@ def run(chk: Check):
     # the same rule at the level of the kernels' transition infos: RW / MH / IWLS kernels whose block's density depends
     # on a quantity another kernel of the sequence moves in between (the log-densities are those of the *current* state)
     from harness import parallel, proposals_driver as P
-    js = [j for j in P.jobs(True) if j["family"] in ("coupled", "gamma_coupled")]
+    js = [j for j in P.jobs(True) if j["family"] in ("coupled", "gamma_coupled", "gamma_cached")]
     ktr = [t for res in parallel.run_jobs("harness.proposals_driver", "run", js) for t in res]
     chk.tv("Trace_Proposals.tla", ktr, tag="kernel_infos", timeout=900,
            keyfn=lambda r: f"kernel:{r.trace['hdr']['kernel']}:{r.conjunct}",
